@@ -34,6 +34,12 @@ type GoBackNConn struct {
 	// sequence that we have received.
 	recvSeq uint8
 
+	// recvPartial holds the chunks of a message that Recv has already
+	// taken off recvDataChan when it returned early (receive timeout), so
+	// that the next Recv call continues the same message instead of
+	// dropping its head.
+	recvPartial []byte
+
 	resendTicker *time.Ticker
 
 	recvDataChan chan *PacketData
@@ -207,10 +213,7 @@ func (g *GoBackNConn) Recv() ([]byte, error) {
 	default:
 	}
 
-	var (
-		b   []byte
-		msg *PacketData
-	)
+	var msg *PacketData
 
 	ticker := time.NewTimer(g.timeoutManager.GetRecvTimeout())
 	defer ticker.Stop()
@@ -224,12 +227,15 @@ func (g *GoBackNConn) Recv() ([]byte, error) {
 		case msg = <-g.recvDataChan:
 		}
 
-		b = append(b, msg.Payload...)
+		g.recvPartial = append(g.recvPartial, msg.Payload...)
 
 		if msg.FinalChunk {
 			break
 		}
 	}
+
+	b := g.recvPartial
+	g.recvPartial = nil
 
 	return b, nil
 }
